@@ -531,6 +531,10 @@ func (c *UDPConn) Write(b []byte) (int, error) {
 
 //go:norace
 func (c *UDPConn) send(b []byte, addr *UDPAddr) (int, error) {
+	if c.wdl >= 0 && rt.Now() >= c.wdl {
+		// like the real poller: a write deadline that has already passed fails the call before anything is sent
+		return 0, timeoutErr("write", c.network)
+	}
 	if len(b) > 65507 {
 		return 0, opErr("write", c.network, syscall.EMSGSIZE)
 	}
@@ -847,6 +851,9 @@ func (c *StreamConn) write(b []byte) (int, error) {
 	n := 0
 	if c.closed {
 		return 0, opErr("write", c.network, ErrClosed)
+	}
+	if c.wdl >= 0 && rt.Now() >= c.wdl {
+		return 0, timeoutErr("write", c.network) // an expired write deadline fails the call before anything is sent
 	}
 	// segmentation plan for this Write
 	plan := 0
